@@ -96,7 +96,14 @@ impl BTreeSet<String> {
     #[verifier::external_body]
     pub fn len(&self) -> (r: usize) ensures r == self.ids().len() { unimplemented!() }
 }
-// `for id in &set` (rewrite D23)
+// `for id in &set` and `for (id, token) in &map` (rewrite D23)
+pub open spec fn spec_iter_len(s: &BTreeSet<String>) -> nat { s.ids().len() }
+pub open spec fn spec_kv_len<V>(m: &BTreeMap<String, V>) -> nat { m.keys().len() }
+#[verifier::external_body]
+pub fn kv_len<V>(m: &BTreeMap<String, V>) -> (r: usize) ensures r == m.keys().len() { unimplemented!() }
+#[verifier::external_body]
+pub fn kv_nth<V>(m: &BTreeMap<String, V>, i: usize) -> (r: (&String, &V)) requires i < m.keys().len(),
+    ensures r.0@ == m.keys()[i as int], m.map().contains_key(r.0@), *r.1 == m.map()[r.0@] { unimplemented!() }
 #[verifier::external_body]
 pub fn iter_len(s: &BTreeSet<String>) -> (r: usize) ensures r == s.ids().len() { unimplemented!() }
 #[verifier::external_body]
@@ -107,6 +114,7 @@ pub fn iter_nth(s: &BTreeSet<String>, i: usize) -> (r: &String) requires i < s.i
 pub struct BTreeMap<K, V> { k: std::marker::PhantomData<K>, v: std::marker::PhantomData<V> }
 impl<V> BTreeMap<String, V> {
     pub uninterp spec fn map(&self) -> Map<Seq<char>, V>;
+    pub uninterp spec fn keys(&self) -> Seq<Seq<char>>;      // the keys in iteration order
     #[verifier::external_body]
     pub fn get(&self, k: &String) -> (r: Option<&V>)
         ensures match r { Some(v) => self.map().contains_key(k@) && *v == self.map()[k@], None => !self.map().contains_key(k@) }
@@ -287,11 +295,12 @@ def build(manifest):
         t = re.sub(r'^(\s*)fn ', r'\1pub fn ', t, count=1) if not re.match(r'\s*pub ', t) else t
         # D8 path normalisation: the unit is one flat module
         t = t.replace('crate::server::config::', '').replace('user_identity::', '')
-        return ref_iter_to_index_loop(t, rewrites)
+        return t
     for n in ['authenticate_endpoint', 'authenticate_anonymous_token', 'authenticate_username_identity_token']:
-        f[n] = splice_contract(prep(st.impl_fn(r'^impl ServerState \{', n)), SPEC[n][1], SPEC[n][0])
+        # the search loop of the user name check needs no invariant of its own (loop_isolation(false)): the rewrite supplies `decreases`
+        f[n] = splice_contract(ref_iter_to_index_loop(prep(st.impl_fn(r'^impl ServerState \{', n)), rewrites, with_decreases=True), SPEC[n][1], SPEC[n][0])
     for n in ['supports_anonymous', 'supports_user_token_id', 'supports_user_pass', 'supports_x509']:
-        f[n] = splice_contract(prep(cf.impl_fn(r'^impl ServerEndpoint \{', n)), SPEC[n][1], SPEC[n][0])
+        f[n] = splice_contract(ref_iter_to_index_loop(prep(cf.impl_fn(r'^impl ServerEndpoint \{', n)), rewrites), SPEC[n][1], SPEC[n][0])
     for n in ['is_user_pass', 'is_x509']:
         f[n] = splice_contract(prep(cf.impl_fn(r'^impl ServerUserToken \{', n)), SPEC[n][1], SPEC[n][0])
     # the loop of authenticate_username_identity_token sees what was established before it (password obtained, gates passed)
@@ -299,10 +308,11 @@ def build(manifest):
     if rewrites:
         f['supports_user_pass'] = splice_loop(f['supports_user_pass'], 0, LOOP_SUPPORTS % '')
         f['supports_x509'] = splice_loop(f['supports_x509'], 0, LOOP_SUPPORTS % '!')
-        f['authenticate_username_identity_token'] = splice_loop(f['authenticate_username_identity_token'], 0, LOOP_USER)
         # at the head of each loop body (the line D23 generates): what `&String != &str` means
-        for n in ['supports_user_pass', 'supports_x509', 'authenticate_username_identity_token']:
+        for n in ['supports_user_pass', 'supports_x509']:
             f[n] = splice_at(f[n], r'^\s*let user_token_id = iter_nth\(', '                proof { axiom_string_str_eq(); }', before=False)
+    # what `&String != &str` means, for the whole body of the user name check
+    f['authenticate_username_identity_token'] = splice_body_start(f['authenticate_username_identity_token'], '        proof { axiom_string_str_eq(); }')
     types = '\n'.join([
         static_str(it.const('POLICY_ID_ANONYMOUS')), static_str(cf.const('ANONYMOUS_USER_TOKEN_ID')),
         it.enum('IdentityToken', derive=None),
